@@ -350,6 +350,13 @@ func replacementEdits(ld *Loaded) (map[string][]srcEdit, error) {
 					return true
 				}
 				recv := string(src[xs:xe])
+				if _, isPtr := sig.Recv().Type().(*types.Pointer); isPtr {
+					if tv, ok := p.TypesInfo.Types[sel.X]; ok {
+						if _, xPtr := tv.Type.Underlying().(*types.Pointer); !xPtr {
+							recv = "&" + recv
+						}
+					}
+				}
 				sep := ", "
 				if len(call.Args) == 0 {
 					sep = ""
@@ -452,7 +459,10 @@ func outcomeMatches(v Violation, outcome string) bool {
 	case "panic":
 		return strings.HasPrefix(outcome, "panic:") || strings.HasPrefix(outcome, "fatal error:") || outcome == "out-of-memory"
 	case "assert":
-		return outcome == "assert: "+v.Msg
+		// any oracle assertion failing natively on this input confirms a violation (when the
+		// model over-approximates an effect, an earlier assertion of the same harness may be
+		// the one that fires natively); so does a native crash
+		return strings.HasPrefix(outcome, "assert: ") || strings.HasPrefix(outcome, "panic:") || strings.HasPrefix(outcome, "fatal error:")
 	case "progress":
 		return outcome == "timeout" || outcome == "out-of-memory" || strings.HasPrefix(outcome, "exit: signal: killed")
 	case "alloc":
